@@ -153,13 +153,20 @@ func genC15(c *Ctx) error {
 				// SAME task id (ids are the submitter's labels, nothing makes them unique). The bystander's own nonce record is
 				// not the query's doing and is left out of the observation.
 				nonce++
-				nb := w.SignedArgs("tt", "script", bystander, strconv.FormatUint(nonce, 10), "get,d1")
+				// ... or that writes, sets an event and is then refused: it leaves nothing, whoever comes next in the list
+				bscript := []string{"get,d1", "put,dz,leak;event,ez,p;fail", "put,qk,leak;del,d1;fail"}[rng.Intn(3)]
+				nb := w.SignedArgs("tt", "script", bystander, strconv.FormatUint(nonce, 10), bscript)
 				id := w.Peer.NextTxID()
 				if rng.Intn(2) == 0 {
 					id = tasks[0].Id
 					c.Count("query_task_shares_id_with_transaction")
 				}
-				tasks = append(tasks, &fpb.Task{Id: id, Method: "script", Args: nb})
+				if rng.Intn(2) == 0 {
+					tasks = append(tasks, &fpb.Task{Id: id, Method: "script", Args: nb})
+				} else {
+					tasks = append([]*fpb.Task{{Id: id, Method: "script", Args: nb}}, tasks...)
+					c.Count("query_task_after_a_transaction_task")
+				}
 				neighbour = bystander.AddrString()
 			}
 			data := mustMarshal(&fpb.ExecuteTasksRequest{Tasks: tasks})
